@@ -1,0 +1,40 @@
+// SPDX-FileCopyrightText: 2026 The Pion community <https://pion.ly>
+// SPDX-License-Identifier: MIT
+
+//go:build verif
+
+package report
+
+// VerifC11Stream reports whether a receiver stream exists for ssrc and whether
+// it has seen no packet yet (lifecycle check C11).
+func (r *ReceiverInterceptor) VerifC11Stream(ssrc uint32) (exists, fresh bool) {
+	v, ok := r.streams.Load(ssrc)
+	if !ok {
+		return false, true
+	}
+	stream, ok := v.(*receiverStream)
+	if !ok {
+		return true, false
+	}
+	stream.m.Lock()
+	defer stream.m.Unlock()
+
+	return true, !stream.started
+}
+
+// VerifC11Stream reports whether a sender stream exists for ssrc and whether
+// it has counted no packet yet (lifecycle check C11).
+func (s *SenderInterceptor) VerifC11Stream(ssrc uint32) (exists, fresh bool) {
+	v, ok := s.streams.Load(ssrc)
+	if !ok {
+		return false, true
+	}
+	stream, ok := v.(*senderStream)
+	if !ok {
+		return true, false
+	}
+	stream.m.Lock()
+	defer stream.m.Unlock()
+
+	return true, stream.packetCount == 0 && stream.octetCount == 0
+}
